@@ -244,7 +244,7 @@ func (u *Unit) loopEnter(st *State, lp *Loop) {
 				}
 				u.sliceArr[cur.S] = a.S
 				if st2, isSl := c.typ.Underlying().(*types.Slice); isSl {
-					st.private = append(st.private, privRef{a, "arr:" + string(u.sortOf(st2.Elem()))})
+					st.private = append(st.private, privRef{a, "arr:" + string(u.sortOf(st2.Elem())), ""})
 				}
 			}
 		}
